@@ -142,6 +142,15 @@ pub fn cases(rng: &mut Rng, count: usize, _tier: &str) -> Vec<Case> {
                 }
             }
         }
+        // the id of a record, written out, is a name query like any other (it matches names containing the digits, nothing else)
+        for recs in [&f.genes, &f.omim] {
+            for r in recs.iter().take(3) {
+                queries.push(r.id.to_string());
+                if rng.chance(1, 2) {
+                    queries.push(format!("OMIM:{}", r.id));
+                }
+            }
+        }
         queries.push(crate::gen::gen_name(rng, false));
         queries.push("zzz-absent".to_string());
         queries.push("é".to_string());
